@@ -294,9 +294,14 @@ func rawApply(s *mon.Sketch, spec *gen.StoreSpec, mp **gen.Map, op skOp) (err er
 		old.I().Add(m.ClampIn(1))
 		old.I().Clear()
 	case opChangeMapping:
+		old := *s
 		*s = s.ChangeMapping(op.newMap.M, op.target, op.w)
 		*spec = op.target
 		*mp = op.newMap
+		// the source stays alive and keeps being used: nothing of it may be shared with the result
+		old.I().Add(m.ClampIn(1))
+		old.I().Reweight(2)
+		old.I().Clear()
 	}
 	return err
 }
